@@ -1,6 +1,7 @@
 """shared machinery of the generation properties (C04-C08, C10, C13): run the real generator under
 observation, run the model on the same random history, compare, and expose the observations to the
 property oracles."""
+import os
 import random
 
 import numpy as np
@@ -310,13 +311,44 @@ class LightErr:
 _G = {}
 
 
+class _JobTimeout(Exception):
+    pass
+
+
+def _alarm(signum, frame):
+    raise _JobTimeout()
+
+
+def _limit_worker():
+    """per worker process: an address-space limit, so that a runaway generation raises MemoryError in that job instead of taking
+    the machine down (a worker killed by the kernel makes Pool.map wait forever)"""
+    import resource
+    import signal
+    lim = int(os.environ.get("VERIF_WORKER_MEM_GB", "6")) * (1 << 30)
+    try:
+        resource.setrlimit(resource.RLIMIT_AS, (lim, lim))
+    except (ValueError, OSError):
+        pass
+    signal.signal(signal.SIGALRM, _alarm)
+
+
 def _worker(args):
+    import signal
     ci, seed, forced = args
     case = _G["cases"][ci]
-    if _G.get("runner"):
-        rec = _G["runner"](case, seed, forced)
-    else:
-        rec = run_real(case, Recorder(seed), forced)
+    signal.alarm(int(os.environ.get("VERIF_JOB_TIMEOUT", "300")))
+    try:
+        if _G.get("runner"):
+            rec = _G["runner"](case, seed, forced)
+        else:
+            rec = run_real(case, Recorder(seed), forced)
+    except (_JobTimeout, MemoryError) as exc:
+        signal.alarm(0)
+        import gc
+        gc.collect()
+        return {"ci": ci, "seed": seed, "resource": type(exc).__name__, "forced": forced}
+    finally:
+        signal.alarm(0)
     fails = []
     for f in _G["oracles"]:
         try:
@@ -344,14 +376,22 @@ def run_batch(ck, cases, seeds_per_case=1, forced=None, what=("struct", "choices
     procs = procs or min(16, os.cpu_count() or 1)
     if procs > 1 and len(jobs) > 8:
         ctx = mp.get_context("fork")
-        with ctx.Pool(procs) as pool:
+        with ctx.Pool(procs, initializer=_limit_worker) as pool:
             lights = pool.map(_worker, jobs, chunksize=max(1, len(jobs) // (procs * 8)))
     else:
+        import signal
+        signal.signal(signal.SIGALRM, _alarm)
         lights = [_worker(j) for j in jobs]
     recs = []
     ops = []
     for l in lights:
         case = cases[l["ci"]]
+        if "resource" in l:
+            # a single generation ran into the per-job time or memory limit: reported with its input, not compared
+            ck.count("job_hit_resource_limit:" + l["resource"])
+            ck.note(f"generation hit the per-job {l['resource']} limit: {case.text[:200]} seed={l['seed']} forced={l['forced']}")
+            ck.extra.setdefault("resource_limited_jobs", []).append({"text": case.text, "seed": l["seed"], "forced": l["forced"], "limit": l["resource"]})
+            continue
         if l["c11"]:
             ck.count("skipped_c11_draw_failure")
             continue
